@@ -8,9 +8,9 @@ use crate::dsl::*;
 
 pub struct C13;
 
-const NAMES: [&str; 13] = [
+const NAMES: [&str; 16] = [
     "plain", "a.b", "a.b.c", "x.tar.gz", "sp ace.o", "\u{e9}t\u{e9}.c", "dots..o", "n.1.2.3", "UP.Lo.w", "z.o",
-    ".hid", ".cfg.json", "end.",
+    ".hid", ".cfg.json", "end.", "rep.c.c", "bak.tar.gz.tar.gz", "o.o.o.o",
 ];
 
 impl Property for C13 {
@@ -25,7 +25,7 @@ impl Property for C13 {
     }
     fn rule(&self) -> &'static str {
         "targets at depth 0-3 (in a third of the deep cases the last directories do not exist yet and are \
-         created by the rule) whose names have zero to three dots (also leading and trailing ones), spaces and non-ASCII letters, given \
+         created by the rule) whose names have zero to three dots (also leading and trailing ones, and repeated extensions), spaces and non-ASCII letters, given \
          with redundant separators and .. detours; 1-4 candidate scripts placed at random positions of \
          the reference candidate list (name.do, default.<ext>.do longest extension first, default.do, in \
          the target's directory then each ancestor up to the project root); history: build, then add a \
